@@ -335,6 +335,12 @@ def _r3(repo, L, m, ba):
                 okd = maxown is not None and maxown <= 1
                 whyd = f"a contig leaves the shared map while up to {maxown} results still own it: it stays in two outputs (duplicated)"
     L.check(okd, "R3", dof.short + ":shared-map", "contig leaves the shared map only with <= 1 owner", whyd, dof.loc())
+    # premises are recomputed from the current state in every round (a resolver carried over keeps stale what-ifs)
+    wl = [n for n in walk_shallow(dof.node) if isinstance(n, ast.While)]
+    mk = [c for c in repo.calls_in(dof) if dotted(c.func) == "OverhangResolver"]
+    fx = [c for c in repo.calls_in(dof) if isinstance(c.func, ast.Attribute) and c.func.attr == "make_fixes"]
+    okw = len(wl) == 1 and len(mk) == 1 and len(fx) == 1 and contains(wl[0], mk[0]) and contains(wl[0], fx[0]) and mk[0].lineno < fx[0].lineno
+    L.check(okw, "R3", dof.short + ":fresh-premises", "a fresh resolver (fresh premises) in every round", "the overhang resolver is not rebuilt inside each round: premises computed against an earlier state are applied again after rows have been removed, discarding a contig from its only remaining owner (recorded as found, never re-added)", dof.loc())
     # loop continues until no fix; every fix processed
     fl = [n for n in walk_shallow(dof.node) if isinstance(n, ast.For) and "fix" in norm(n.iter)]
     L.check(len(fl) == 1 and not any(isinstance(x, ast.Break | ast.Continue) for x in walk_shallow(fl[0])), "R3", dof.short + ":all-fixes", "bookkeeping for every applied premise", "not every applied premise is processed", dof.loc())
